@@ -4,7 +4,7 @@ validation agrees with the compiler (spec/DiscoChain.tla, harness/cmd/h-disco).
   1. TLC checks the reference semantics and the store model exhaustively (DiscoChain_mc.cfg)
   2. TLC prints one behaviour per transition of that model (DiscoChain_gen.cfg); h-disco executes each
      against the real state.Store and the real discoverychain.Compile (direct and through the store,
-     several evaluation contexts, repeated with shuffled inputs, 2 s watchdog)
+     several evaluation contexts, repeated with shuffled inputs, under a watchdog)
   3. h-disco's seeded random driver does the same over a larger universe (5 services, 3 subsets, 5
      protocols, datacenters, all failover forms, CAS writes, invalid entries, overrides)
   4. every recorded event is judged by TLC (DiscoChainTrace) ; rejected events become signatures
@@ -24,7 +24,7 @@ STORE_PREDS = {"valid", "cas", "accepted-but-breaks-direct-chain", "accepted-but
 COMPILE_PREDS = {"Terminates", "Deterministic-graph", "Deterministic-output", "NoPanic", "read-only", "ok-iff-spec-ok",
                  "err-class", "UniqueIds", "Closed", "Acyclic", "AllPathsEndInResolverWithTarget", "targets", "graph"}
 DOC = {
-    "Terminates": "every discoverychain.Compile call returned within the 2 s watchdog",
+    "Terminates": "every discoverychain.Compile call returned (watchdog 20 s, must expire twice in a row; 60 s for a store write, whose validation compiles inside the transaction)",
     "Deterministic-graph": "all repeated compilations (shuffled entry/map insertion orders) return the same graph: start, nodes, edges in order, targets, protocol",
     "Deterministic-output": "all repeated compilations return byte-identical complete outputs (digest of the whole CompiledDiscoveryChain, incl. split weights)",
     "NoPanic": "Compile did not panic",
